@@ -53,6 +53,48 @@ def _recv(fd, timeout=None):
     return pickle.loads(buf)
 
 
+LATE_PIPES = {}   # worker id -> (read fd, write fd) for workers that the code under test forks itself
+
+
+def _recv_state(fd, timeout):
+    'a worker that exits without reporting (os._exit inside the code under test) closes its pipe: state X'
+    try:
+        return _recv(fd, timeout)
+    except EOFError:
+        return ('X',)
+
+
+def adopt_late(k):
+    'called in a freshly forked child of a scheduled worker: become logical worker k'
+    global _WORKER
+    old = _WORKER
+    _WORKER = LATE_PIPES[k]
+    for j, fds in LATE_PIPES.items():
+        if j != k:
+            for fd in fds:
+                try:
+                    os.close(fd)
+                except OSError:
+                    pass
+    if old:
+        for fd in old:
+            try:
+                os.close(fd)
+            except OSError:
+                pass
+    point(('start', k))
+
+
+def release_late(k):
+    'called in the parent after forking late worker k: drop our copies of its pipe ends, then report the fork'
+    for fd in LATE_PIPES.pop(k, ()):
+        try:
+            os.close(fd)
+        except OSError:
+            pass
+    point(('forked', k))
+
+
 def point(tag, blocked=None):
     '''scheduling point inside a worker; `blocked` is None (always enabled) or a callable that says whether proceeding would block.
     A no-op outside a scheduled worker, so harness bodies can also run free.'''
@@ -150,7 +192,7 @@ class Execution:
         return n
 
 
-def run(bodies, prefix, trace_match=None, setup=None, teardown=None, timeout=60., before_fork=None):
+def run(bodies, prefix, trace_match=None, setup=None, teardown=None, timeout=60., before_fork=None, late_workers=0):
     '''one execution: fork len(bodies) workers, follow `prefix` (list of choice indices), then default choices.
     bodies: list of callables body(ctx) -> picklable result, run in the child; ctx is what setup() returned.'''
     global _WORKER
@@ -159,6 +201,13 @@ def run(bodies, prefix, trace_match=None, setup=None, teardown=None, timeout=60.
     if before_fork:
         before_fork(ctx)
     workers = {}
+    late = {}
+    for k in range(len(bodies), len(bodies) + late_workers):
+        c2p_r, c2p_w = os.pipe()
+        p2c_r, p2c_w = os.pipe()
+        late[k] = {'r': c2p_r, 'w': p2c_w, 'child_fds': (p2c_r, c2p_w)}
+    LATE_PIPES.clear()
+    LATE_PIPES.update({k: v['child_fds'] for k, v in late.items()})
     try:
         for i, body in enumerate(bodies):
             c2p_r, c2p_w = os.pipe()
@@ -167,7 +216,7 @@ def run(bodies, prefix, trace_match=None, setup=None, teardown=None, timeout=60.
             if pid == 0:
                 try:
                     os.close(c2p_r); os.close(p2c_w)
-                    for w in workers.values():
+                    for w in list(workers.values()) + list(late.values()):
                         try:
                             os.close(w['r']); os.close(w['w'])
                         except OSError:
@@ -188,9 +237,26 @@ def run(bodies, prefix, trace_match=None, setup=None, teardown=None, timeout=60.
                     os._exit(0)
             os.close(c2p_w); os.close(p2c_r)
             workers[i] = {'pid': pid, 'r': c2p_r, 'w': p2c_w, 'state': None}
+        for v in late.values():   # the controller keeps only its own ends of the late pipes
+            for fd in v['child_fds']:
+                os.close(fd)
         # every worker reports its first point
         for i, w in workers.items():
-            w['state'] = _recv(w['r'], timeout)
+            w['state'] = _recv_state(w['r'], timeout)
+
+        def activate_late():
+            'a worker that reports ("forked", k) has just created late worker k: wait for its first report'
+            again = True
+            while again:
+                again = False
+                for i, w in list(workers.items()):
+                    st = w['state']
+                    if st[0] == 'P' and st[1][0] == 'forked' and st[1][1] in late:
+                        k = st[1][1]
+                        lw = late.pop(k)
+                        workers[k] = {'pid': None, 'r': lw['r'], 'w': lw['w'], 'state': _recv_state(lw['r'], timeout)}
+                        again = True
+        activate_late()
         running = None
         step = 0
         while True:
@@ -202,8 +268,23 @@ def run(bodies, prefix, trace_match=None, setup=None, teardown=None, timeout=60.
                 w = workers[i]
                 if w['state'][2]:
                     _send(w['w'], 'probe')
-                    w['state'] = _recv(w['r'], timeout)
+                    w['state'] = _recv_state(w['r'], timeout)
             enabled = [i for i in alive if not workers[i]['state'][2]]
+            if not enabled:
+                # a blocked probe may depend on something the kernel is still finishing (a process that has closed its pipe but is not
+                # yet waitable, a lock being released at exit): re-probe for a grace period before declaring a deadlock
+                for attempt in range(400):
+                    time.sleep(.005)
+                    for i in alive:
+                        w = workers[i]
+                        _send(w['w'], 'probe')
+                        w['state'] = _recv_state(w['r'], timeout)
+                    alive = [i for i in alive if workers[i]['state'][0] == 'P']
+                    enabled = [i for i in alive if not workers[i]['state'][2]]
+                    if enabled or not alive:
+                        break
+                if not alive:
+                    continue
             if not enabled:
                 ex.deadlock = {i: workers[i]['state'][1] for i in alive}
                 break
@@ -222,7 +303,8 @@ def run(bodies, prefix, trace_match=None, setup=None, teardown=None, timeout=60.
             ex.trace.append((chosen, workers[chosen]['state'][1]))
             ex.preemptions += preempt
             _send(workers[chosen]['w'], 'go')
-            workers[chosen]['state'] = _recv(workers[chosen]['r'], timeout)
+            workers[chosen]['state'] = _recv_state(workers[chosen]['r'], timeout)
+            activate_late()
             running = chosen
             step += 1
         for i, w in workers.items():
@@ -231,20 +313,23 @@ def run(bodies, prefix, trace_match=None, setup=None, teardown=None, timeout=60.
                 ex.results[i] = st[1]
             elif st[0] == 'E':
                 ex.results[i] = ('error', st[1], st[2])
+            elif st[0] == 'X':
+                ex.results[i] = ('exited',)
             else:
                 ex.results[i] = ('stuck', st[1])
         if step < len(prefix):
             raise ReplayDivergence('execution ended after {} steps but the prefix has {}'.format(step, len(prefix)))
     finally:
-        for w in workers.values():
-            try:
-                os.kill(w['pid'], signal.SIGKILL)
-            except OSError:
-                pass
-            try:
-                os.waitpid(w['pid'], 0)
-            except OSError:
-                pass
+        for w in list(workers.values()) + list(late.values()):
+            if w.get('pid'):
+                try:
+                    os.kill(w['pid'], signal.SIGKILL)
+                except OSError:
+                    pass
+                try:
+                    os.waitpid(w['pid'], 0)
+                except OSError:
+                    pass
             for fd in (w['r'], w['w']):
                 try:
                     os.close(fd)
